@@ -41,6 +41,9 @@ def cases(tier, seed):
     for v, b, i, n in [("pp", "ph,pphh", "ia,jkbc", 1), ("pp", "pphh,ph", "ijab,kc", 1),
                        ("pp", "ph,pphh", "ia,jkbc", 2), ("ip", "h,phh", "i,jka", 1), ("ip", "h,phh", "i,jka", 2)]:
         yield {"variant": v, "block": b, "indices": i, "order": n, "singles": True, "kind": "isr"}
+    # target index names of the name generation the generic indices are currently taken from
+    yield {"variant": "pp", "block": "ph,ph", "indices": None, "order": 2, "singles": False,
+           "kind": "isr-current-generation-names"}
     if tier == "thorough":
         # (ordered by cost; the last one is the fourth order satellite block that exposed the
         #  missing class weights of s_root: about 25 min)
@@ -69,6 +72,21 @@ def antisym_delta(a, b):
 
 
 def check(case):
+    if case["kind"] == "isr-current-generation-names":
+        from adcgen.indices import Indices
+        # later letters of the current generation have not been handed out yet;
+        # which of them the derivation consumes next depends on the request
+        for letter in "cdefg":
+            cur = Indices().get_generic_indices(virt=1)[("virt", "")][0].name
+            ok, d = check(dict(case, kind="isr", indices=f"ia,j{letter}{cur[1:]}"))
+            if not ok:
+                return ok, d
+        for letter in "lmn":
+            cur = Indices().get_generic_indices(occ=1)[("occ", "")][0].name
+            ok, d = check(dict(case, kind="isr", indices=f"{letter}{cur[1:]}a,jb"))
+            if not ok:
+                return ok, d
+        return True, ""
     obj = isr(case["variant"], case["singles"])
     bra_idx, ket_idx = case["indices"].split(",")
     n = case["order"]
